@@ -14,6 +14,33 @@ import uuid
 
 from niltype import Nil
 
+class StrSub(str):
+    pass
+
+
+class IntSub(int):
+    pass
+
+
+class FloatSub(float):
+    pass
+
+
+class ListSub(list):
+    pass
+
+
+class DictSub(dict):
+    pass
+
+
+class DateTimeSub(_dt.datetime):
+    pass
+
+
+# plain subclasses of built-ins (no overrides): an instance IS a str / int / float / list / dict
+SUBS = {StrSub: str, IntSub: int, FloatSub: float, ListSub: list, DictSub: dict}
+
 NAMED = {}      # name -> object (opaque / non-literal things)
 _BY_ID = {}     # id(object) -> name
 
@@ -35,6 +62,8 @@ def src(v):
     if v is Nil:
         return "Nil"
     t = type(v)
+    if t in SUBS:
+        return f"{t.__name__}({src(SUBS[t](v))})"
     if t is int and v.bit_length() > 14000:
         return hex(v)            # decimal conversion of such an int raises ValueError
     if t is int or t is str or t is bytes:
@@ -90,7 +119,9 @@ class _Unrepr:
 def namespace():
     return {
         "Z": NAMED, "Nil": Nil, "UUID": uuid.UUID, "datetime": _dt, "Decimal": decimal.Decimal, "Fraction": fractions.Fraction,
-        "OrderedDict": collections.OrderedDict, "defaultdict": collections.defaultdict, "Counter": collections.Counter, "UNREPR": _Unrepr, "__builtins__": {
+        "OrderedDict": collections.OrderedDict, "defaultdict": collections.defaultdict, "Counter": collections.Counter, "UNREPR": _Unrepr,
+        "StrSub": StrSub, "IntSub": IntSub, "FloatSub": FloatSub, "ListSub": ListSub, "DictSub": DictSub,
+        "__builtins__": {
             "float": float, "complex": complex, "set": set, "frozenset": frozenset,
             "bytearray": bytearray, "range": range, "int": int, "list": list, "str": str, "dict": dict, "True": True, "False": False, "None": None},
     }
